@@ -324,17 +324,17 @@ def _caller_convention(fx, enc):
 
 
 def _caller_convention_named(fx, enc, names):
-    """How _encode derives (ver, ver_range) for write_segment from version: read from its first statements."""
+    """How _encode derives (ver, ver_range) for write_segment from version: the statements of _encode that define the two
+    arguments (backward slice from the call, `version` being the input) are interpreted."""
+    from .common import defining_statements
     it = Interp()
-    pre = []
-    for st in enc.body:
-        txt = ast.unparse(st)
-        if isinstance(st, ast.Assign) and (ast.unparse(st.targets[0]) in names or nf.same(st.value, 'version < 1')):
-            pre.append(st)
-        elif isinstance(st, ast.If) and 'version_range' in txt:
-            pre.append(st)
-    need(len(pre) >= 3, '_encode: derivation of ver / ver_range not found')
-    vnames = [a.id for a in [c for c in src.calls_in(enc, 'write_segment')][0].args[2:4]]
+    calls = [c for c in src.calls_in(enc, 'write_segment')]
+    need(len(calls) == 1 and len(calls[0].args) >= 4 and all(isinstance(a, ast.Name) for a in calls[0].args[2:4]),
+         '_encode: one write_segment(buff, segment, <ver>, <ver_range>, ...) call expected')
+    vnames = [a.id for a in calls[0].args[2:4]]
+    params = set(src.params(enc))
+    pre = defining_statements(enc, set(vnames), provided=params)
+    need(pre, '_encode: derivation of ver / ver_range not found')
     genv = encoder_env(fx.forest, it)
 
     def conv(rv, vr):
